@@ -132,7 +132,8 @@ func randRaw(r *core.RNG, depth int) string {
 		b, _ := json.Marshal(randString(r))
 		return string(b)
 	case 2:
-		return []string{"true", "false", "1.5e3", "0"}[r.Intn(4)]
+		// spellings a vendor's encoder may use and that must come back exactly as they were sent
+		return []string{"true", "false", "1.5e3", "0", "18446744073709551615", "9007199254740993", "868.10", "1E3", "-0", "0.10000000000000000001", "1e-7", "123456789012345678901234567890", "null"}[r.Intn(13)]
 	case 3:
 		if depth > 2 {
 			return "[]"
@@ -147,10 +148,11 @@ func randRaw(r *core.RNG, depth int) string {
 		if depth > 2 {
 			return "{}"
 		}
-		n := r.Intn(3)
+		n := r.Intn(4)
 		parts := make([]string, n)
 		for i := range parts {
-			k, _ := json.Marshal(fmt.Sprintf("k%d", i))
+			// members in no particular order, now and then the same name twice
+			k, _ := json.Marshal([]string{"z", "k1", "a", "gatewayID", "k1"}[r.Intn(5)])
 			parts[i] = string(k) + ":" + randRaw(r, depth+1)
 		}
 		return "{" + strings.Join(parts, ",") + "}"
@@ -399,6 +401,13 @@ func c17Envelope(c *core.Ctx, r *core.RNG) {
 		kekLen = []int{0, 1, 15, 17, 31, 33, 64}[r.Intn(7)]
 	}
 	kek := r.Bytes(kekLen)
+	if r.Chance(1, 5) {
+		// key-encryption keys with structure: the bytes of a hex or base64 text, printable text, one repeated byte
+		alpha := []string{"0123456789abcdef", "0123456789ABCDEF", "ABCDEFGHIJKLMNOPQRSTUVWXYZabcdefghijklmnopqrstuvwxyz0123456789+/", " !kek-Passphrase_", "\x00", "\xff"}[r.Intn(6)]
+		for i := range kek {
+			kek[i] = alpha[r.Intn(len(alpha))]
+		}
+	}
 	key := key16(r)
 	label := []string{"lbl", "lbl", "010203", "0x010203", "C0002A", "000000", "000001", "0x000001", "00", "0", "null", "false", "as-kek/1", "a label with spaces", "ключ", "k", strings.Repeat("L", 200)}[r.Intn(17)]
 	if r.Chance(1, 5) {
